@@ -99,6 +99,16 @@ inductive UF.RootOf (u : UF) : Nat → Nat → Prop
   | root {v} : u.parentOf v = some none → UF.RootOf u v v
   | step {v p r} : u.parentOf v = some (some p) → UF.RootOf u p r → UF.RootOf u v r
 
+/-- representation invariant of the component finder w.r.t. the initial values and the pairs merged so far -/
+structure UInv (values : List Nat) (pairs : List (Nat × Nat)) (u : UF) : Prop where
+  keys : ∀ v, u.parentOf v ≠ none ↔ v ∈ values
+  parentLt : u.ParentLt
+  /-- every parent link stays inside a class -/
+  sound : ∀ v p, u.parentOf v = some (some p) → Conn pairs v p
+  /-- merged elements have the same root -/
+  complete : ∀ a b, (a, b) ∈ pairs → u.root a = u.root b
+  pairKeys : ∀ a b, (a, b) ∈ pairs → a ∈ values ∧ b ∈ values
+
 /-- a sequence of merges; `none` as soon as one merge raises -/
 def UF.mergeAll (u : UF) : List (Nat × Nat) → Option UF
   | [] => some u
